@@ -72,6 +72,13 @@ func (c *Case) candidates() []*Case {
 	try(func(d *Case) bool { ok := d.Again; d.Again = false; return ok })
 	try(func(d *Case) bool { ok := d.Interrupt != nil; d.Interrupt, d.Again = nil, false; return ok })
 	try(func(d *Case) bool {
+		ok := d.Interrupt != nil && d.Interrupt.Also != nil
+		if ok {
+			d.Interrupt.Also = nil
+		}
+		return ok
+	})
+	try(func(d *Case) bool {
 		ok := d.Runs > 1
 		d.Runs--
 		if d.Runs == 1 {
@@ -117,6 +124,13 @@ func (c *Case) candidates() []*Case {
 				if g.Loop != nil {
 					for _, b := range g.Loop.Body {
 						if b == nd.ID {
+							return false
+						}
+					}
+				}
+				if d.Interrupt != nil && d.Interrupt.Also != nil && d.Interrupt.Also.Graph == gi {
+					for _, id := range d.Interrupt.Also.Nodes {
+						if id == nd.ID {
 							return false
 						}
 					}
@@ -230,6 +244,12 @@ func (c *Case) prune() bool {
 			return false
 		}
 		c.Interrupt.Graph = idx[c.Interrupt.Graph]
+		if a := c.Interrupt.Also; a != nil {
+			if !reach[a.Graph] {
+				return false
+			}
+			a.Graph = idx[a.Graph]
+		}
 	}
 	c.Forest = forest
 	return true
